@@ -236,7 +236,7 @@ func lalrExec(c *jsLalrCase, withOpt, withMin bool) {
 		_, err := lalr.Compile(c.build(d[0], d[1]), opts)
 		c.Compiles = append(c.Compiles, jsCompile{d[0], d[1], err != nil})
 	}
-	if withOpt {
+	if withOpt && t.UsedLADepth == 0 {
 		o := opts
 		o.Optimize = true
 		t2, _ := lalr.Compile(c.build(t.SR, t.RR), o)
